@@ -126,6 +126,13 @@ def ceil : F64 → F64
       if n then mk n q 0 else mk n (q + 1) 0
   | f => f
 
+/-- `math.Trunc` -/
+def trunc : F64 → F64
+  | .fin n m e =>
+    if e ≥ 0 ∨ m = 0 then .fin n m e
+    else mk n (m / 2 ^ (-e).toNat) 0
+  | f => f
+
 /-- `math.Mod(x, y)`: exact remainder with the sign of `x`. -/
 def mod : F64 → F64 → F64
   | .nan, _ => .nan
